@@ -190,6 +190,25 @@ CHECKS += [
            "std::sort permuting the pid arrays are mathematics/assumed, not machine-checked; cyarray c_align_array and "
            "ParticleArray.align_particles are assumed (C06); 'queries after the following update are exact' is C01's "
            "subject; replay of violations builds the extensions from the working tree (about 40 s)"),
+ dict(id='C01',
+      text="Partial. Deductive (all inputs, doubles as reals): cell arithmetic of nnps_base.pxd (real_to_int = floor, "
+           "get_valid_cell_index spec, flatten injective); stencil lemma; cell size >= radius_scale*h of every particle; "
+           "_compute_bounds box; LinkedListNNPS: every particle's flattened cell id is inside the allocated heads; NNPS.update "
+           "rebuilds every array with indices 0..n-1 and invalidates every cache entry; push-front lists (shared with C17); "
+           "LinkedList query visits the 27 distinct stencil cells, walks each list from its head, appends a node iff it "
+           "passes the distance test; glue lemma: every pair that must be found lies in a visited valid cell; for ALL "
+           "twelve classes every appended index passed the acceptance test on that index (abstracting executor); "
+           "get_nearest_particles runs the query in the requested (src,dst) context; every set_context selects the "
+           "structures of the requested pair; _refresh keeps the loaded context valid; z-order neighbour-box rows. "
+           "BOUNDED stand-in (never counted as proved): extensions built from the working tree, 12 classes x 7 (quick) / "
+           "11 (thorough) distributions x dims 1-3 x cache on/off x knob variants x 2 update rounds against the definition. "
+           "Two defects repaired (fix: 6eae934, 613605a); open findings in the z-order / stratified-SFC / compressed-octree "
+           "classes listed in known_findings.json.",
+      note="completeness, duplicate-freedom and index validity of the ten non-linked-list classes are only covered by the "
+           "bounded stand-in (C++ hash tables, sorted key arrays and octrees are outside the VC generator); threads filling "
+           "the cache are not modelled; pairs at exactly the cut-off are left open as the property says; 'the lists hold "
+           "exactly the binned particles' is a glue lemma; the check builds the extensions once per run (about 40 s of the "
+           "100 s)"),
 ]
 
 NOT_APPLICABLE = [
@@ -199,7 +218,7 @@ NOT_APPLICABLE = [
 ]
 # properties not yet under a registered check are listed as not applicable
 # "pending" until their check lands, so the manifest is valid at all times
-PENDING = ['C01']
+PENDING = []
 for p in PENDING:
     if p not in [c['id'] for c in CHECKS]:
         NOT_APPLICABLE.append(dict(property_id=p, reason="check not registered yet in this commit (work in progress, see DESIGN.md section 3 for the planned contracts)"))
